@@ -51,6 +51,7 @@ type InvState struct {
 	St   string `json:"st"`   // unused | live | revoked
 	Type string `json:"type"` // req | any | -
 	Perm string `json:"perm"`
+	// the model also tracks "key" (an EncryptedReadKey is present); the exported API does not show it
 }
 
 // Post is the projection of an AclState that model and code are compared on.
